@@ -118,3 +118,14 @@ pub fn duration(d: &Dur, p: Prec) -> String {
     }
     out
 }
+
+/// +-HH:MM or +-HH:MM:SS for an offset in seconds
+pub fn offset_seconds(secs: i64) -> String {
+    let sign = if secs < 0 { '-' } else { '+' };
+    let a = secs.abs();
+    if a % 60 == 0 {
+        format!("{}{:02}:{:02}", sign, a / 3600, a / 60 % 60)
+    } else {
+        format!("{}{:02}:{:02}:{:02}", sign, a / 3600, a / 60 % 60, a % 60)
+    }
+}
